@@ -483,6 +483,7 @@ def analyse(req, out):
     for name, text in cross:
         fails.append((None, text))
     blank = _is_blank(src)
+    stmtless = bool(re.match(r"\(ok Module\(ModModule \{ range: [^,]*, body: \[\]", b0.get("parse.m", "")))
     for name, want in exp.items():
         got = b0.get(name)
         if got is None:
@@ -505,6 +506,11 @@ def analyse(req, out):
             if blank and got == base and (name.startswith("parse_tokens.") or name.endswith(".parse_tokens")):
                 # a text without tokens lexes to the same (empty) stream at every offset, so no parse_tokens can
                 # tell the offsets apart: "equals parsing the text" and "moved by k" cannot both be asked here
+                continue
+            if stmtless and got == base == "(err Eof 0)" and name.endswith(".parse_tokens"):
+                # same conflict for a text WITH tokens but WITHOUT a statement (a backslash-joined blank line leaves a lone
+                # Newline token): the Eof of a zero-statement stream has no token to sit at, and the first token is at
+                # k + 3, not k — parse_tokens is not told k and cannot recover it (the *_starts_at twins are judged)
                 continue
             tag = None
             if blank and got == base and _TOKENLESS_MOD.match(got) and (
@@ -655,6 +661,8 @@ CORPUS = [
     # lexer: no entry point may treat such a text as empty (seed C09-8: a `trim().is_empty()` short cut in `parse`)
     "\u00a0", "\n\u3000\n", "\n\x0b\n", "\u0085", " \t", "\x1c", "\x1f", "\u2028", "\u2029", "\u2003 ", "\u00a0# c", "\u1680\n", "\u202f", "\u205f",
     "\ufeff\u00a0", "x\u00a0", "\u00a0x", "x = 1\n\u3000", " \t\n", "\t \n", "\x0c\x0b",
+    # tokens but no statement (a backslash-joined blank line leaves a lone Newline token)
+    "\\\n \n", "\\\n\n", " \\\n \n# c\n", "\\\n\\\n\n", "# c\n\\\n\n",
     "try:\n pass\nfinally:\n pass", "with (a as b): pass", "async def f(): await x", "global x", "return", "import a", "from . import a",
 ]
 
